@@ -1,17 +1,24 @@
-use std::{cell::RefCell, fmt, rc::Rc};
+use std::{
+    cell::RefCell,
+    fmt,
+    rc::{Rc, Weak},
+};
 
 use crate::{
     container::Container,
     object::{Object, RTObject},
     path::{Component, Path},
-    pointer::{self, Pointer},
+    pointer::Pointer,
     push_pop::PushPopType,
     story_error::StoryError,
 };
 
 pub struct Divert {
     obj: Object,
-    target_pointer: RefCell<Pointer>,
+    // Cached target. The container is held weakly: a divert lives inside the
+    // content tree and its target may be one of its own ancestors, so a strong
+    // reference here would keep the whole story alive after it is dropped.
+    target_pointer: RefCell<Option<(Weak<Container>, i32)>>,
     target_path: RefCell<Option<Path>>,
     pub external_args: usize,
     pub is_conditional: bool,
@@ -38,7 +45,7 @@ impl Divert {
             stack_push_type,
             is_external,
             external_args,
-            target_pointer: RefCell::new(pointer::NULL.clone()),
+            target_pointer: RefCell::new(None),
             target_path: RefCell::new(Self::target_path_string(target_path)),
             variable_divert_name: var_divert_name,
         }
@@ -86,33 +93,40 @@ impl Divert {
     }
 
     pub fn get_target_pointer(self: &Rc<Self>) -> Result<Pointer, StoryError> {
-        let target_pointer_null = self.target_pointer.borrow().is_null();
-        if target_pointer_null {
-            let target_path = self.target_path.borrow().clone().ok_or_else(|| {
-                StoryError::InvalidStoryState("Divert has no target path.".to_owned())
-            })?;
-
-            let last_component = target_path.get_last_component().cloned().ok_or_else(|| {
-                StoryError::InvalidStoryState("Divert target path is empty.".to_owned())
-            })?;
-
-            let target_obj = Object::resolve_path(self.clone(), &target_path).obj.clone();
-
-            if let Some(index) = last_component.index {
-                self.target_pointer.borrow_mut().container = target_obj.get_object().get_parent();
-                self.target_pointer.borrow_mut().index = index as i32;
-            } else {
-                let c = target_obj.into_any().downcast::<Container>().map_err(|_| {
-                    StoryError::InvalidStoryState(format!(
-                        "Divert target is not a container: {}",
-                        target_path
-                    ))
-                })?;
-                self.target_pointer.replace(Pointer::start_of(c));
-            }
+        if let Some((container, index)) = self.target_pointer.borrow().as_ref()
+            && let Some(container) = container.upgrade()
+        {
+            return Ok(Pointer::new(Some(container), *index));
         }
 
-        Ok(self.target_pointer.borrow().clone())
+        let target_path = self.target_path.borrow().clone().ok_or_else(|| {
+            StoryError::InvalidStoryState("Divert has no target path.".to_owned())
+        })?;
+
+        let last_component = target_path.get_last_component().cloned().ok_or_else(|| {
+            StoryError::InvalidStoryState("Divert target path is empty.".to_owned())
+        })?;
+
+        let target_obj = Object::resolve_path(self.clone(), &target_path).obj.clone();
+
+        let target_pointer = if let Some(index) = last_component.index {
+            Pointer::new(target_obj.get_object().get_parent(), index as i32)
+        } else {
+            let c = target_obj.into_any().downcast::<Container>().map_err(|_| {
+                StoryError::InvalidStoryState(format!(
+                    "Divert target is not a container: {}",
+                    target_path
+                ))
+            })?;
+            Pointer::start_of(c)
+        };
+
+        if let Some(container) = &target_pointer.container {
+            self.target_pointer
+                .replace(Some((Rc::downgrade(container), target_pointer.index)));
+        }
+
+        Ok(target_pointer)
     }
 
     pub fn get_target_path(self: &Rc<Self>) -> Option<Path> {
